@@ -32,7 +32,9 @@ type MemoryStore struct {
 	items                    map[string]*Envelope
 	attempts                 []DeliveryAttempt
 	trendRows                []backlogTrendRow
-	order                    []string
+	order                    []orderSlot
+	orderSeq                 map[string]uint64 // item_id -> seq of the slot that stands for the stored item
+	nextOrderSeq             uint64
 	leases                   map[string]string // lease_id -> item_id
 	notify                   chan struct{}
 	maxDepth                 int
@@ -47,6 +49,14 @@ type MemoryStore struct {
 	memoryPressureRejects    int64
 	memoryPressureItemLimit  int
 	memoryPressureBytesLimit int64
+}
+
+// orderSlot is one position in the insertion order. A removed item leaves its
+// slot behind until compaction; seq tells the slot of the stored item from such
+// a stale slot when the id is used again.
+type orderSlot struct {
+	id  string
+	seq uint64
 }
 
 type backlogTrendRow struct {
@@ -83,6 +93,7 @@ func NewMemoryStore(opts ...MemoryOption) *MemoryStore {
 	s := &MemoryStore{
 		nowFn:                  time.Now,
 		items:                  make(map[string]*Envelope),
+		orderSeq:               make(map[string]uint64),
 		leases:                 make(map[string]string),
 		notify:                 make(chan struct{}),
 		dropPolicy:             "reject",
@@ -216,7 +227,7 @@ func (s *MemoryStore) Enqueue(env Envelope) error {
 
 	cpy := env
 	s.items[env.ID] = &cpy
-	s.order = append(s.order, env.ID)
+	s.appendOrderLocked(env.ID)
 
 	// Wake up any long-polling Dequeue calls.
 	close(s.notify)
@@ -304,7 +315,7 @@ func (s *MemoryStore) EnqueueBatch(items []Envelope) (int, error) {
 	// Commit all items.
 	for _, env := range prepared {
 		s.items[env.ID] = env
-		s.order = append(s.order, env.ID)
+		s.appendOrderLocked(env.ID)
 	}
 
 	close(s.notify)
@@ -344,6 +355,7 @@ func (s *MemoryStore) evictLocked(id string, reason string) bool {
 		return false
 	}
 	delete(s.items, id)
+	delete(s.orderSeq, id)
 	if env.LeaseID != "" {
 		delete(s.leases, env.LeaseID)
 	}
@@ -479,8 +491,9 @@ func (s *MemoryStore) oldestQueuedIDsLocked(n int) ([]string, bool) {
 	}
 	ids := make([]string, 0, n)
 	seen := make(map[string]struct{}, n)
-	for _, id := range s.order {
-		env := s.items[id]
+	for _, slot := range s.order {
+		id := slot.id
+		env := s.slotItemLocked(slot)
 		if env == nil || env.State != StateQueued {
 			continue
 		}
@@ -625,12 +638,12 @@ func (s *MemoryStore) Dequeue(req DequeueRequest) (DequeueResponse, error) {
 		s.maybePruneLocked(now)
 
 		var out []Envelope
-		for _, id := range s.order {
+		for _, slot := range s.order {
 			if len(out) >= batch {
 				break
 			}
 
-			env := s.items[id]
+			env := s.slotItemLocked(slot)
 			if env == nil {
 				continue
 			}
@@ -727,6 +740,7 @@ func (s *MemoryStore) Ack(leaseID string) error {
 	}
 
 	delete(s.items, itemID)
+	delete(s.orderSeq, itemID)
 	return nil
 }
 
@@ -781,6 +795,7 @@ func (s *MemoryStore) AckBatch(leaseIDs []string) (LeaseBatchResult, error) {
 		}
 
 		delete(s.items, itemID)
+		delete(s.orderSeq, itemID)
 		res.Succeeded++
 	}
 
@@ -1113,6 +1128,7 @@ func (s *MemoryStore) DeleteDead(req DeadDeleteRequest) (DeadDeleteResponse, err
 			continue
 		}
 		delete(s.items, id)
+		delete(s.orderSeq, id)
 		deleted++
 	}
 
@@ -1914,13 +1930,28 @@ func (s *MemoryStore) compactOrderLocked() {
 	if len(s.order) <= 4*len(s.items) {
 		return
 	}
-	out := make([]string, 0, len(s.items))
-	for _, id := range s.order {
-		if s.items[id] != nil {
-			out = append(out, id)
+	out := make([]orderSlot, 0, len(s.items))
+	for _, slot := range s.order {
+		if s.slotItemLocked(slot) != nil {
+			out = append(out, slot)
 		}
 	}
 	s.order = out
+}
+
+func (s *MemoryStore) appendOrderLocked(id string) {
+	s.nextOrderSeq++
+	s.orderSeq[id] = s.nextOrderSeq
+	s.order = append(s.order, orderSlot{id: id, seq: s.nextOrderSeq})
+}
+
+// slotItemLocked returns the stored item an order slot stands for, or nil when
+// the slot is stale (its item was removed, whether or not the id is in use again).
+func (s *MemoryStore) slotItemLocked(slot orderSlot) *Envelope {
+	if s.orderSeq[slot.id] != slot.seq {
+		return nil
+	}
+	return s.items[slot.id]
 }
 
 func cloneStringMap(in map[string]string) map[string]string {
